@@ -50,3 +50,13 @@ func VerifPkgCacheKeys(e *Engine) []string {
 	sort.Strings(keys)
 	return keys
 }
+
+// VerifAddCachedPackage is engineState.AddCachedPackage (what goImporter.Import does with a package it has loaded).
+func VerifAddCachedPackage(e *Engine, path string, pkg *types.Package) {
+	e.impl.state.AddCachedPackage(path, pkg)
+}
+
+// VerifCachedPackage is engineState.GetCachedPackage.
+func VerifCachedPackage(e *Engine, path string) *types.Package {
+	return e.impl.state.GetCachedPackage(path)
+}
